@@ -13,6 +13,7 @@ from __future__ import annotations
 from typing import Any, TYPE_CHECKING
 
 from exabgp.configuration.schema import ActionTarget, ActionOperation, ActionKey
+from exabgp.protocol.ip import IP
 
 if TYPE_CHECKING:
     from exabgp.configuration.core.scope import Scope
@@ -246,8 +247,9 @@ def _apply_to_nexthop_attribute(
 
     ip_value, attribute = value[0], value[1]
 
-    # Set the nexthop
-    if ip_value:
+    # Set the nexthop, unless the command has none to give: "redirect 65000:1" comes with
+    # IP.NoNextHop, which is not false, and must not undo the next-hop "copy 10.0.0.1" set
+    if ip_value and ip_value is not IP.NoNextHop:
         if scope.in_settings_mode():
             settings = scope.get_settings()
             if settings is None:
